@@ -481,11 +481,112 @@ def r4_frame_typing(ctx):
     ctx.check(ok, "_init_dva_part (generator path): pre_eig is refused before any array is allocated", f4)
 
 
+# ---------------------------------------------------------------------------
+# C01-R6  acceleration recovered from equilibrium
+BASEF = "pyyeti/ode/_base_ode_class.py"
+
+
+def r6_equilibrium_acceleration(ctx):
+    """_BaseODE._calc_acce_kdof: in each of its six arms (diagonal / diagonal with off-diagonal damping carried as a force / coupled, each with
+    and without a mass) the stored acceleration is M^-1 (F - B v - K d) with B the *full* damping; the split of a coupled damping matrix into
+    its diagonal `b` and zero-diagonal remainder `bo` (_chk_diag_part) is undone with the same index idiom; every time-domain solver calls it."""
+    fn = ctx.src.func(BASEF, "_BaseODE._calc_acce_kdof")
+    Fs, v, d, b, bo, k, invm = (F.sym(x) for x in ("Fk", "vk", "dk", "b", "bo", "k", "invm"))
+    arms = [("diagonal, m given", dict(unc=True, cd=False, m=True), invm * (Fs - b * v - k * d)),
+            ("diagonal, m None", dict(unc=True, cd=False, m=False), Fs - b * v - k * d),
+            ("diagonal + off-diagonal damping as force, m given", dict(unc=True, cd=True, m=True), invm * (Fs - (b + bo) * v - k * d)),
+            ("diagonal + off-diagonal damping as force, m None", dict(unc=True, cd=True, m=False), Fs - (b + bo) * v - k * d),
+            ("coupled, m given", dict(unc=False, cd=False, m=True), invm * (Fs - b * v - k * d)),
+            ("coupled, m None", dict(unc=False, cd=False, m=False), Fs - b * v - k * d)]
+    for name, cfg, want in arms:
+        def cond(test, ev, cfg=cfg):
+            return {"self.ksize": True, "self.unc": cfg["unc"], "self.cdforces": cfg["cd"], "self.misnotNone": cfg["m"]}.get(utext(test))
+
+        def sub(node, ev):
+            return {"force[kdof]": Fs, "v[kdof]": v, "d[kdof]": d}.get(utext(node), NotImplemented)
+
+        def call(node, ev):
+            dn = dotted(node.func) or ""
+            if dn == "la.lu_solve":
+                a_, b_ = ev.ev(node.args[0]), ev.ev(node.args[1])
+                if is_unknown(a_) or is_unknown(b_):
+                    return a_ if is_unknown(a_) else b_
+                return need(a_) * need(b_)       # self.invm holds the factorisation of M: lu_solve(invm, x) = M^-1 x
+            if dn == "np.arange":
+                return F.sym("__arange")
+            return NotImplemented
+
+        class Ev(Evaluator):
+            def _assign(self, target, val, st, aug=False):
+                # idiom: X[i, i] = y with i = np.arange(n): the diagonal of X is replaced by y.  X was built from a zero-diagonal matrix,
+                # so X becomes (zero-diagonal part) + diag(y)
+                if isinstance(target, ast.Subscript) and isinstance(target.value, ast.Name) and isinstance(target.slice, ast.Tuple) \
+                        and len(target.slice.elts) == 2 and all(isinstance(e, ast.Name) and not is_unknown(self.env.get(e.id, Unknown("")))
+                                                                 and repr(self.env.get(e.id)) == "__arange" for e in target.slice.elts) \
+                        and target.slice.elts[0].id == target.slice.elts[1].id:
+                    cur = self.env.get(target.value.id)
+                    if cur is not None and not is_unknown(cur) and not is_unknown(val):
+                        self.env[target.value.id] = need(cur) + need(val)
+                        return
+                return super()._assign(target, val, st, aug)
+
+        ev = Ev(env={"self.bo": bo, "self.b": b, "self.k": k, "self.invm": invm, "self.kdof": F.sym("kdof")}, cond=cond, src=ctx.src, subscript=sub, call=call,
+                store_accept=lambda n, i, node: True)
+        ev.run(fn.body)
+        got = [val for nm, idx, val, st in ev.stores if nm == "a"]
+        if len(got) != 1 or is_unknown(got[0]):
+            ctx.error(f"_calc_acce_kdof ({name}): acceleration store not lowered", fn, repr(got))
+            continue
+        ok = need(got[0]).equals(want)
+        ctx.check(ok, f"_calc_acce_kdof ({name}): a = M^-1 (F - B v - K d) with the full damping matrix", fn,
+                  None if ok else {"got": repr(got[0]), "want": repr(want)})
+    # the zero-diagonal remainder: _chk_diag_part builds bo from a copy of b and must zero its diagonal
+    cd = ctx.src.func(BASEF, "_BaseODE._chk_diag_part")
+    stmts = [n for n in walk_no_nested(cd) if isinstance(n, (ast.Assign, ast.AugAssign, ast.Expr))]
+    born = [n for n in stmts if isinstance(n, ast.Assign) and utext(n.targets[0]) == "bo" and utext(n.value) in ("b.copy()", "np.array(b)", "b+0")]
+    if not born:
+        ctx.error("_chk_diag_part: construction of the off-diagonal damping `bo` not recognised", cd)
+    else:
+        touch = []
+        for n in stmts:
+            if n.lineno <= born[0].lineno:
+                continue
+            t = utext(n)
+            if t.startswith("bo[") or t.startswith("np.fill_diagonal(bo,") or (isinstance(n, ast.AugAssign) and utext(n.target) == "bo"):
+                touch.append(t)
+        zeroing = [t for t in touch if t in ("bo[i,i]=0.0", "bo[i,i]=0", "np.fill_diagonal(bo,0)", "np.fill_diagonal(bo,0.0)", "bo-=np.diag(np.diag(bo))", "bo-=np.diag(bd)")]
+        if zeroing:
+            ctx.ok("_chk_diag_part: the damping carried as a force is a copy of b with its diagonal zeroed (bo), so b_diag + bo is the full matrix that "
+                   "_calc_acce_kdof reassembles", born[0])
+        elif not touch:
+            ctx.fail("_chk_diag_part: the damping carried as a force is a copy of b with its diagonal zeroed (bo), so b_diag + bo is the full matrix that "
+                     "_calc_acce_kdof reassembles", born[0], "bo is a copy of the full matrix and its diagonal is never cleared: the diagonal damping is applied twice",
+                     key="C01-R6|_chk_diag_part|bo diagonal not zeroed")
+        else:
+            ctx.error("_chk_diag_part: `bo` is modified by an idiom the checker does not know", born[0], touch)
+    t = utext(cd)
+    sel_b = [x for x in ("b=b[self.nonrf]",) if x in t]
+    sel_bo = [x for x in ("bo=bo[np.ix_(self.nonrf,self.nonrf)]", "bo=bo[self.nonrf][:,self.nonrf]", "bo=bo[self.nonrf,:][:,self.nonrf]") if x in t]
+    if sel_b and sel_bo:
+        ctx.ok("_chk_diag_part: b and bo are restricted to the same non-rf rows (and columns)", cd)
+    else:
+        ctx.error("_chk_diag_part: the non-rf restriction of b / bo was not recognised", cd, {"b": sel_b, "bo": sel_bo})
+    # callers: every time-domain solution passes through it after the d, v histories are complete
+    for rel, q in ((SOLVEUNC, "SolveUnc.tsolve"), ("pyyeti/ode/solveexp2.py", "SolveExp2.tsolve"), (BASEF, "_BaseODE.finalize")):
+        f2 = ctx.src.func(rel, q)
+        calls = [n for n in walk_no_nested(f2) if isinstance(n, ast.Call) and dotted(n.func) == "self._calc_acce_kdof"]
+        rets = [n for n in walk_no_nested(f2) if isinstance(n, ast.Call) and dotted(n.func) == "self._solution"]
+        ok = len(calls) >= 1 and bool(rets) and all(c.lineno < rets[-1].lineno for c in calls) and \
+            [utext(a) for a in calls[-1].args][:3] == ["d", "v", "a"]
+        ctx.check(ok, f"{q}: the kdof acceleration is recovered from equilibrium on (d, v, a, force) before the solution is returned", calls[-1] if calls else f2)
+
+
 RULES = [
     ("C01-R1", r1_coef_identities, 150),
     ("C01-R1b", r1b_regime_selectors, 14),
     ("C01-R3", r3_partition_typing, 60),
     ("C01-R4", r4_frame_typing, 6),
+    ("C01-R6", r6_equilibrium_acceleration, 11),
 ]
 
 LEVEL = "other"
@@ -495,7 +596,11 @@ MANIFEST = {
     "text": "Partial claim, decided statically for all inputs: the closed-form one-step coefficients extracted from "
             "get_su_coef satisfy the defining ODE identities (homogeneous, constant-force and ramp-force particular "
             "solutions with their h->0 initial values) in every damping regime, for m given and m=None, and each "
-            "regime is the continuous limit of its neighbour. Does not decide round-off levels, "
+            "regime is the continuous limit of its neighbour; regime selectors depend on the mass-normalised problem only and the complex-path "
+            "coefficients are the exact constant/ramp integrals (R1b); every subscript/operand pair in the ODE package agrees on its index space "
+            "(full / non-rf / rb / el / rf, state halves) in both coefficient modes (R3); on the pre_eig path user arrays enter and leave through phi (R4); "
+            "the kdof acceleration is M^-1 (F - B v - K d) with the full damping in all six arms (R6). Hold-order arms are decided under C08-R2/R2c. "
+            "Does not decide round-off levels, "
             "conditioning grades or library eigen/expm calls.",
     "note": "Trusted: CPython ast parser, the exact rational normal-form engine (verifier/e2_formula.py); assumes the regime "
             "partition vectors select w2>0 / w2=0 / w2<0 as their defining comparisons say (checked structurally).",
